@@ -10,9 +10,11 @@ import (
 	"errors"
 	"fmt"
 	"reflect"
+	"runtime"
 	"strings"
 
 	"github.com/bytedance/sonic"
+	"github.com/bytedance/sonic/encoder"
 	"github.com/bytedance/sonic/option"
 	"github.com/bytedance/sonic/verifx"
 
@@ -169,18 +171,44 @@ func init() {
 	StdFlags = e
 }
 
+// fresh: empty program cache; for the corpus also empty buffer pools (two GC cycles drop sync.Pool contents), so that
+// the output buffer starts at its default size and long outputs go through every growth step.
+func fresh(c *Case) {
+	verifx.EncResetProgramCache()
+	if c.Regime == "witness" {
+		runtime.GC()
+		runtime.GC()
+	}
+}
+
 // Sonic runs the encoder of this process (JIT unless SONIC_ENCODER_USE_VM) on a fresh program cache.
 func Sonic(c *Case, flags uint64) Result {
-	verifx.EncResetProgramCache()
+	fresh(c)
 	v := c.Iface()
 	return guard(func() ([]byte, error) { return verifx.EncEncode(v, flags) })
 }
 
 // SonicStd goes through the public API object.
 func SonicStd(c *Case) Result {
-	verifx.EncResetProgramCache()
+	fresh(c)
 	v := c.Iface()
 	return guard(func() ([]byte, error) { return sonic.ConfigStd.Marshal(v) })
+}
+
+// Pretouched: sonic.Pretouch of the case's type with compile options, then Marshal under the std word.
+func Pretouched(c *Case, omitNull bool, inline, rec int) Result {
+	fresh(c)
+	if !c.V.IsValid() {
+		return Result{Class: "na"}
+	}
+	v := c.Iface()
+	t := c.V.Type()
+	return guard(func() ([]byte, error) {
+		if err := encoder.Pretouch(t, option.WithCompileEncOnlyOmitNull(omitNull), option.WithCompileMaxInlineDepth(inline), option.WithCompileRecursiveDepth(rec)); err != nil {
+			return nil, err
+		}
+		return sonic.ConfigStd.Marshal(v)
+	})
 }
 
 // Std is the oracle.
